@@ -183,3 +183,23 @@ pub uninterp spec fn f64_named_const_s(name: int) -> f64;
 #[verifier::external_body] pub fn f64_const_infinity() -> (r: f64) ensures r == f64_named_const_s(5) { f64::INFINITY }
 #[verifier::external_body] pub fn f64_const_neg_infinity() -> (r: f64) ensures r == f64_named_const_s(6) { f64::NEG_INFINITY }
 #[verifier::external_body] pub fn f64_const_nan() -> (r: f64) ensures r == f64_named_const_s(7) { f64::NAN }
+
+/// `it.map(f)` for a closure without mutable state: item k of the result satisfies f's contract on item k
+#[verifier::external_body]
+pub fn verif_map<I: Iterator, U, F: FnMut(I::Item) -> U>(it: I, f: F) -> (r: ::core::iter::Map<I, F>)
+    requires it.obeys_prophetic_iter_laws(), forall |k: int| 0 <= k < it.remaining().len() ==> #[trigger] f.requires((it.remaining()[k],)),
+    ensures r.obeys_prophetic_iter_laws(), r.remaining().len() == it.remaining().len(),
+        forall |k: int| 0 <= k < it.remaining().len() ==> f.ensures((it.remaining()[k],), #[trigger] r.remaining()[k]),
+{ it.map(f) }
+/// `it.map(f).product::<f64>()`: an uninterpreted function of the sequence of factors
+pub uninterp spec fn f64_prod_s(v: Seq<f64>) -> f64;
+#[verifier::external_body]
+pub fn verif_map_product<I: Iterator, F: FnMut(I::Item) -> f64>(it: I, f: F) -> (r: f64)
+    requires forall |k: int| 0 <= k < it.remaining().len() ==> #[trigger] f.requires((it.remaining()[k],)),
+    ensures exists |v: Seq<f64>| v.len() == it.remaining().len() && (forall |k: int| 0 <= k < v.len() ==> f.ensures((it.remaining()[k],), #[trigger] v[k])) && r == f64_prod_s(v),
+{ it.map(f).product::<f64>() }
+/// `2usize.pow(n)` (the only use in the crate): a power of two is a shift
+pub assume_specification [usize::pow](base: usize, exp: u32) -> (r: usize)
+    requires base == 2 ==> exp < 64, base != 2 ==> false,
+    ensures base == 2 ==> r == (1usize << (exp as usize)),
+;
